@@ -11,6 +11,9 @@
 (* the top level over a reduced alphabet.                                                                  *)
 EXTENDS Naturals, Sequences, FiniteSets, TLC, Json
 CONSTANTS SkipDupCheck, NoSanityInCreate, NoSanityInFill, NoExcl, Emit,
+          NoSanityInAttr,   \* deviation: set_attribs does not skip entries with an insane name
+          AttrFollowsLinks, \* deviation: chown / utimens / setxattr without AT_SYMLINK_NOFOLLOW (the l-variants): a link entry re-owns what it points at
+          ChmodOnLinks,     \* deviation: chmod (which always follows) is also issued for symlink entries
           SortCaseFold      \* deviation: tree_sort orders siblings ignoring letter case while the duplicate test (adjacent entries, strcmp) does not
 
 Names == {"a", "b", "dd", "sl", "dot"}
@@ -78,6 +81,24 @@ Fill(st, rel, nodes) ==
                       ELSE IF n.kind = "dir" THEN Fill(st, rel \o Comp(n.name), n.kids) ELSE st
             IN Fill(s1, rel, Tail(nodes))
 
+(* set_attribs (--chown --set-xattr --set-times --chmod): children first, then the entry itself; chown / xattr / times do not follow the last *)
+(* component, chmod does but is not issued for symlink entries.  Touching = re-owning / re-moding the object the path resolves to.            *)
+RECURSIVE Attr(_, _, _)
+Attr(st, rel, nodes) ==
+  IF nodes = <<>> \/ st.fail THEN st
+  ELSE LET n == Head(nodes) IN
+       IF ~NoSanityInAttr /\ ~Sane(n.name) THEN Attr(st, rel, Tail(nodes))
+       ELSE LET s0 == IF n.kind = "dir" THEN Attr(st, rel \o Comp(n.name), n.kids) ELSE st
+                own == Res(s0.fs, Root, rel \o Comp(n.name), AttrFollowsLinks, 0)              \* fchownat / utimensat / lsetxattr
+                md  == Res(s0.fs, Root, rel \o Comp(n.name), TRUE, 0)                          \* fchmodat(.., 0)
+                s1 == IF s0.fail THEN s0
+                      ELSE IF own[1] = "err" \/ Lookup(s0.fs, own[2]) = {} THEN [s0 EXCEPT !.fail = TRUE]      \* ENOENT: the run fails
+                      ELSE [s0 EXCEPT !.bad = @ \/ ~Inside(own[2])]
+                s2 == IF s1.fail \/ (n.kind = "link" /\ ~ChmodOnLinks) THEN s1
+                      ELSE IF md[1] = "err" \/ Lookup(s1.fs, md[2]) = {} THEN [s1 EXCEPT !.fail = TRUE]
+                      ELSE [s1 EXCEPT !.bad = @ \/ ~Inside(md[2])]
+            IN Attr(s2, rel, Tail(nodes))
+
 (* tree_sort: stable merge sort of the siblings by name (strcmp), then one pass that compares NEIGHBOURS (strcmp) *)
 Rank(n) == CASE n = "dot" -> 1 [] n = "dd" -> 2 [] n = "A" -> (IF SortCaseFold THEN 4 ELSE 3) [] n = "a" -> 4 [] n = "b" -> 5 [] OTHER -> 6
 RECURSIVE InsertSorted(_, _)
@@ -120,7 +141,8 @@ Run == /\ ~result.ran
           THEN result' = [result EXCEPT !.fail = TRUE, !.ran = TRUE]                      \* tree_sort rejects duplicates
           ELSE LET sorted == SortTree(forest)
                    w == Walk([fs |-> result.fs, bad |-> FALSE, fail |-> FALSE], <<>>, sorted)
-                   g == Fill(w, <<>>, sorted)
+                   g0 == Fill(w, <<>>, sorted)
+                   g == Attr(g0, <<>>, sorted)
                IN result' = [fs |-> g.fs, bad |-> g.bad, fail |-> g.fail, ran |-> TRUE]
        /\ UNCHANGED forest
 Next == Run \/ (result.ran /\ UNCHANGED <<forest, result>>)
